@@ -2,7 +2,7 @@
 import os, sys, json, time, hashlib, subprocess, collections, random, re, shutil
 
 VERIF = os.path.dirname(os.path.dirname(os.path.abspath(__file__)))
-REPO = os.environ.get('VERIF_REPO', '/repo')
+REPO = os.environ.get('VERIF_REPO') or '/repo'
 BUILD = os.environ.get('VERIF_BUILD') or os.path.join(VERIF, '.build')
 sys.path.insert(0, VERIF)
 
@@ -187,6 +187,11 @@ def run_harness(ctx, name, body, fs='default', models=None, subst=(), timeout=No
     if os.environ.get('VERIF_DEBUG'): print('  [harness] %-50s %6.2fs paths=%d queries=%d solver=%.2fs' % (name, h.wall, sum(h.kinds.values()), h.stats.get('queries', 0), h.stats.get('solver_ms', 0) / 1000.0), dict(h.kinds), flush=True)
     bad = [r for r in h.results if r['kind'] in ('inconclusive', 'error', 'timeout', 'uncaught_panic')]
     if bad:
+        if any(r['kind'] == 'cex' for r in h.results):
+            # undecided paths next to counterexamples: the counterexamples go to the native confirmation (a confirmed one is a violation whatever the
+            # undecided paths would have said); nothing is ever reported as holding from this harness
+            ctx.undecided = getattr(ctx, 'undecided', []) + ['%s: %d undecided path(s) next to %d counterexample(s)' % (name, len(bad), h.kinds.get('cex', 0))]
+            return h
         raise CheckInconclusive('%s: %d undecided path(s); first: %s' % (name, len(bad), json.dumps(bad[0])[:1200]))
     return h
 
@@ -259,6 +264,8 @@ def fn_hashes(fns, names):
 
 def finish(ctx, level, explanation, extra_cov=None, rule=None):
     """write evidence and print the verdict; returns exit code"""
+    if getattr(ctx, 'undecided', None) and not ctx.violations:
+        raise CheckInconclusive('undecided paths and no confirmed violation: ' + '; '.join(ctx.undecided)[:1200])
     wall = time.time() - ctx.t0
     tot = collections.Counter()
     paths = 0
